@@ -319,7 +319,7 @@ var pvals = []string{"utf-8", "1", "2", `"a b"`, `"1"`, "UTF-8", `"x,y"`, `"x\"y
 
 func genStep(t *rapid.T) Step {
 	s := Step{Fn: rapid.SampledFrom([]string{"accepts", "accepts", "accepts", "format", "charsets", "encodings", "languages"}).Draw(t, "fn")}
-	s.Comma = rapid.SampledFrom([]string{",", ", ", " , ", " ,", ",  "}).Draw(t, "comma")
+	s.Comma = rapid.SampledFrom([]string{",", ", ", " , ", " ,", ",  ", "\t,", ",\t", " \t, \t"}).Draw(t, "comma") // OWS = *( SP / HTAB )
 	media := s.Fn == "accepts" || s.Fn == "format"
 	if rapid.IntRange(0, 14).Draw(t, "absent") == 0 {
 		s.Absent = true
